@@ -2,8 +2,8 @@
 use crate::engine::*;
 use crate::gens::doc::{Doc, DocOpts, TK, doc};
 use crate::gens::handlers::mutators;
-use crate::gens::input::{InputOpts, input};
-use crate::gens::sched::schedule;
+use crate::gens::input::{InputOpts, input_in};
+use crate::gens::sched::sched_spec;
 use crate::model::attr::parse_tag;
 use crate::model::tree::{Tree, induce};
 use crate::obs::*;
@@ -25,16 +25,16 @@ pub fn all_observers(cfg: &mut Cfg) {
 
 pub fn decode(tape: &[u16]) -> Case {
     let mut t = Tape::new(tape);
-    if t.chance(1, 4) {
-        let (input, enc) = input(&mut t, &InputOpts::default());
-        let mut cfg = Cfg { encoding: enc, ..Cfg::default() };
-        all_observers(&mut cfg);
-        let cuts = schedule(&mut t, input.len());
+    let soup = t.chance(1, 4);
+    let enc = crate::gens::input::pick_encoding(&mut t, true);
+    let mut cfg = Cfg { encoding: enc, ..Cfg::default() };
+    all_observers(&mut cfg);
+    let spec = sched_spec(&mut t);
+    if soup {
+        let input = input_in(&mut t, &InputOpts::default(), enc);
+        let cuts = spec.resolve(input.len());
         return Case::Soup { input, cuts, cfg };
     }
-    let d = doc(&mut t, &DocOpts::default());
-    let mut cfg = Cfg::default();
-    all_observers(&mut cfg);
     cfg.esi = t.chance(1, 5);
     if t.chance(1, 3) {
         // handlers that rewrite content (must not influence reported locations)
@@ -48,7 +48,8 @@ pub fn decode(tape: &[u16]) -> Case {
             }
         }
     }
-    let cuts = schedule(&mut t, d.bytes.len());
+    let d = doc(&mut t, &DocOpts { enc, ..DocOpts::default() });
+    let cuts = spec.resolve(d.bytes.len());
     Case::Doc { d, cuts, cfg }
 }
 
@@ -199,6 +200,35 @@ pub fn check_soup(input: &[u8], cuts: &[usize], cfg: &Cfg, st: &mut Stats) -> PR
 impl Prop for C14 {
     fn id(&self) -> &'static str {
         "C14"
+    }
+    fn fixed_cases(&self) -> Vec<FixedCase> {
+        use crate::gens::doc::{Ns, build};
+        vec![FixedCase {
+            name: "integration-point-ns",
+            finding: Some("C16-integration-point-ns"),
+            what: "<math><annotation-xml encoding=text/html> is a MathML element (only its content is HTML)",
+            run: Box::new(|st| {
+                let d = build(&[
+                    (TK::Start, "<math>", "math", Ns::MathMl, ""),
+                    (TK::Start, "<annotation-xml encoding=\"text/html\">", "annotation-xml", Ns::MathMl, ""),
+                    (TK::Start, "<div>", "div", Ns::Html, ""),
+                    (TK::End, "</div>", "div", Ns::Html, ""),
+                    (TK::End, "</annotation-xml>", "annotation-xml", Ns::Html, ""),
+                    (TK::Start, "<mi>", "mi", Ns::MathMl, ""),
+                    (TK::End, "</mi>", "mi", Ns::Html, ""),
+                    (TK::End, "</math>", "math", Ns::MathMl, ""),
+                    (TK::Start, "<svg>", "svg", Ns::Svg, ""),
+                    (TK::Start, "<foreignObject>", "foreignObject", Ns::Svg, ""),
+                    (TK::Start, "<p>", "p", Ns::Html, ""),
+                    (TK::End, "</p>", "p", Ns::Html, ""),
+                    (TK::End, "</foreignObject>", "foreignObject", Ns::Html, ""),
+                    (TK::End, "</svg>", "svg", Ns::Svg, ""),
+                ]);
+                let mut cfg = Cfg::default();
+                all_observers(&mut cfg);
+                check_doc(&d, &[], &cfg, st)
+            }),
+        }]
     }
     fn rule(&self) -> String {
         "3/4 of cases: structured documents (generator owns the layout: mis-nested HTML, voids, raw-text elements, comments, doctypes, SVG/MathML islands with CDATA and integration points, odd attribute syntax) x schedule x observers (+ optional content-rewriting handlers); oracle: every reported element/end tag/comment/doctype/text-node range and every attribute name/value range equals the generator's (attribute ranges via the independent R-attr tokenizer), text chunks contiguous and covering. 1/4: byte soup, invariants only (ranges inside input, increasing, non-overlapping, <...> shaped, bytes at the range re-tokenise to the same tag/attributes). non-trivial = a cut lies inside a non-text token, a later token exists (reported after a buffer shift) and the document has >= 1 attribute; distinct by hash(doc,cuts)".into()
